@@ -10,7 +10,7 @@ import sys
 
 from . import lib
 from .peer import Peer, PeerFault
-from .util import jcopy
+from .util import jcopy, sha, canon
 from .hostmodel import SECTIONS, cfg_type
 
 
@@ -367,10 +367,12 @@ class Host:
         glob = self.global_of(h.spec)
 
         fail_at = None
+        fail_exc = None
         if fault and fault['kind'] == 'F3':
             fail_at = fault.get('k')
+            fail_exc = fault.get('exc')
         if h.peer is not None:
-            h.peer.begin(fail_at)
+            h.peer.begin(fail_at, fail_exc)
             h.peer.protect = tuple(newline_of(h.spec, glob))
 
         if holder == 'none':
@@ -459,6 +461,8 @@ class Host:
             h.raised_before = True
         if h.peer is not None:
             info['peer_n'] = h.peer.n
+            # what the editor saw during this call (arguments, positions, answers)
+            info['peer_view'] = sha(canon(h.peer.log))[:16]
         if tracer is not None:
             info['entries'] = tracer.total
             if tracer.mode == 'count':
@@ -485,7 +489,7 @@ def reference_call(callspec, want_entries=False):
           'pin': callspec.get('pin', 0)}
     tracer = EntryTracer('count') if want_entries else None
     outcome, info = host.call(op, tracer=tracer)
-    out = {'outcome': outcome, 'peer_n': info['peer_n']}
+    out = {'outcome': outcome, 'peer_n': info['peer_n'], 'peer_view': info.get('peer_view')}
     if want_entries:
         out['entries'] = info['entries']
         out['counts'] = info.get('counts') or {}
